@@ -331,13 +331,24 @@ def ansi (tb : Tables) (value : Text) : Frags := (run tb {} value).2
 def ansiEscape (t : Text) : Text :=
   t.map fun c => if c = ESC ∨ c = CSI8 ∨ c = SOH ∨ c = STX ∨ c = BS then '?' else c
 
-/-- `html_escape(text)` for a `str` -/
+/-- XML 1.0 `Char` production (`_XML_ILLEGAL_CHARS_RE` is its complement) -/
+def xmlLegal (c : Char) : Bool :=
+  let n := c.toNat
+  n == 9 || n == 10 || n == 13 || (0x20 ≤ n && n ≤ 0xD7FF) || (0xE000 ≤ n && n ≤ 0xFFFD) ||
+    (0x10000 ≤ n && n ≤ 0x10FFFF)
+
+/-- `html_escape(text)` for a `str`: the six `replace` calls (none of the replacement texts
+    contains a character replaced later, except `&`, which is replaced first), then
+    `_XML_ILLEGAL_CHARS_RE.sub("?", …)` -/
 def htmlEscape (t : Text) : Text :=
   t.flatMap fun c =>
     if c = '&' then "&amp;".toList
     else if c = '<' then "&lt;".toList
     else if c = '>' then "&gt;".toList
     else if c = '"' then "&quot;".toList
+    else if c = '\'' then "&#39;".toList
+    else if c = '\r' then "&#13;".toList
+    else if !xmlLegal c then ['?']
     else [c]
 
 /-! ### `str.format` / `%` templates (CPython; sub-grammar) -/
